@@ -294,11 +294,144 @@ def r3_no_custom_protocol(m):
     return r
 
 
+RESOURCE_CALLS = {"open": "an open file", "io.open": "an open file", "codecs.open": "an open file", "os.fdopen": "an open file",
+                  "threading.Lock": "a lock", "threading.RLock": "a lock", "socket.socket": "a socket",
+                  "tempfile.TemporaryFile": "an open file", "tempfile.NamedTemporaryFile": "an open file"}
+
+
+def r4_reachable_state(m):
+    """Everything a tree node references is copied/pickled with it: node -> item (Line, Comment, ...) -> reader -> format.
+    copy and pickle refuse open files, locks, lambdas, nested functions and generators."""
+    r = RuleResult("C18.R4", "no object reachable from a tree node (its reader item, the reader, the source format) stores a value that "
+                             "copy/pickle refuse: an open file, a lambda or nested function, a generator, a lock")
+    r.floor = 50
+    RF_, SI_ = "fparser.common.readfortran", "fparser.common.sourceinfo"
+    base = m.key("Base", UTILS)
+    keys = [k for k, c in m.classes.items() if c["module"] in (RF_, SI_) or (k in m.classes and m.issub(k, base) and not c.get("generated"))]
+    for k in sorted(keys):
+        c = m.classes[k]
+        if c["module"] not in (RF_, SI_) and not c["module"].startswith("fparser.two"):
+            continue
+        cd = m.classdef(k)
+        if cd is None:
+            continue
+        custom = {n.name for n in cd.body if isinstance(n, ast.FunctionDef)} & {"__getstate__", "__reduce__", "__reduce_ex__", "__deepcopy__"}
+        for meth in [n for n in cd.body if isinstance(n, ast.FunctionDef)]:
+            f = m.method(k, meth.name)
+            if f is None:
+                continue
+            nested = {n.name for n in ast.walk(meth) if isinstance(n, ast.FunctionDef) and n is not meth}
+            for n in A.body_nodes(meth):
+                if not isinstance(n, ast.Assign):
+                    continue
+                for t in n.targets:
+                    if not (isinstance(t, ast.Attribute) and isinstance(t.value, ast.Name) and t.value.id == "self"):
+                        continue
+                    r.instances += 1
+                    v, why = n.value, None
+                    if isinstance(v, ast.Lambda):
+                        why = "a lambda"
+                    elif isinstance(v, ast.GeneratorExp):
+                        why = "a generator"
+                    elif isinstance(v, ast.Name) and v.id in nested:
+                        why = "a nested function"
+                    elif isinstance(v, ast.Call):
+                        d = A.dotted(v.func) or ""
+                        if d in RESOURCE_CALLS:
+                            why = RESOURCE_CALLS[d]
+                        elif d in ("iter", "map", "filter", "zip") and v.args and not isinstance(v.args[0], (ast.List, ast.Tuple, ast.Constant)):
+                            why = None
+                    ok = why is None or bool(custom)
+                    r.ob(ok, "%s.%s: self.%s" % (c["name"], meth.name, t.attr) if r.instances % 40 == 0 else None)
+                    if not ok:
+                        r.fail("%s.%s|self.%s|%s" % (c["name"], meth.name, t.attr, why.split()[-1]),
+                               "%s.%s stores %s in self.%s and the class has no __getstate__/__reduce__ leaving it out: every tree node "
+                               "refers to its reader through its item, so copy.deepcopy/pickle of a tree built with this object fails "
+                               "(TypeError/AttributeError: cannot pickle)" % (c["name"], meth.name, why, t.attr), m.loc(f, n))
+    return r
+
+
+ITEM_MAKERS = {"line_item", "comment_item", "cpp_directive_item", "multiline_item", "_next", "next", "get_source_item", "get_item", "copy"}
+ADDERS = {"append", "appendleft", "insert", "extend", "extendleft", "add", "setdefault", "update"}
+
+
+def r5_no_back_reference(m):
+    """Items cache the nodes matched from them (Line.parse_cache) and nodes name their reader in __getnewargs__: a reader that keeps an
+    item it has handed out closes a cycle node -> reader -> item -> node through the arguments of the reconstructor, and deepcopy then
+    builds the root twice (the copy's children point at a hidden twin)."""
+    r = RuleResult("C18.R5", "besides its delivery queue the reader keeps no reference to an item it hands out (no cycle from a node through "
+                             "its reader back to a node)")
+    r.floor = 2
+    RF_ = "fparser.common.readfortran"
+    rb = m.key("FortranReaderBase", RF_)
+    item_classes = {c["name"] for k, c in m.classes.items() if c["module"] == RF_ and
+                    any(b.split(":")[1] in ("Line", "Comment", "MultiLine", "SyntaxErrorLine", "SyntaxErrorMultiLine", "CppDirective") for b in c["mro"])}
+    allowed = {"fifo_item": "the delivery queue: empty once the source has been consumed"}
+    for k, c in sorted(m.classes.items()):
+        if c["module"] != RF_ or not m.issub(k, rb):
+            continue
+        cd = m.classdef(k)
+        if cd is None:
+            continue
+        for meth in [n for n in cd.body if isinstance(n, ast.FunctionDef)]:
+            f = m.method(k, meth.name)
+            # names that may hold an item
+            items = {a.arg for a in meth.args.args if a.arg in ("item", "newitem", "citem")}
+            changed = True
+
+            def is_item(v):
+                if isinstance(v, ast.Name):
+                    return v.id in items
+                if isinstance(v, ast.Call):
+                    fn = v.func
+                    if isinstance(fn, ast.Name) and fn.id in item_classes:
+                        return True
+                    if isinstance(fn, ast.Attribute) and fn.attr in ITEM_MAKERS and (A.text(fn.value) in ("self", "reader", "self.reader") or
+                                                                                     (fn.attr == "copy" and is_item(fn.value))):
+                        return True
+                    if isinstance(fn, ast.Attribute) and fn.attr in ("pop", "popleft") and A.text(fn.value).endswith("fifo_item"):
+                        return True
+                if isinstance(v, ast.IfExp):
+                    return is_item(v.body) or is_item(v.orelse)
+                return False
+            while changed:
+                changed = False
+                for n in A.body_nodes(meth):
+                    if isinstance(n, ast.Assign) and len(n.targets) == 1 and isinstance(n.targets[0], ast.Name) and is_item(n.value) \
+                            and n.targets[0].id not in items:
+                        items.add(n.targets[0].id)
+                        changed = True
+            for n in A.body_nodes(meth):
+                attr = val = None
+                if isinstance(n, ast.Call) and isinstance(n.func, ast.Attribute) and n.func.attr in ADDERS \
+                        and isinstance(n.func.value, ast.Attribute) and A.text(n.func.value.value) == "self":
+                    cand = [a for a in n.args if is_item(a)]
+                    if cand:
+                        attr, val = n.func.value.attr, cand[0]
+                elif isinstance(n, ast.Assign):
+                    for t in n.targets:
+                        tt = t.value if isinstance(t, ast.Subscript) else t
+                        if isinstance(tt, ast.Attribute) and A.text(tt.value) == "self" and is_item(n.value):
+                            attr, val = tt.attr, n.value
+                if attr is None:
+                    continue
+                r.instances += 1
+                ok = attr in allowed
+                r.ob(ok, "%s.%s: item `%s` stored in self.%s" % (c["name"], meth.name, A.text(val)[:30], attr))
+                if not ok:
+                    r.fail("%s.%s|keeps-item|%s" % (c["name"], meth.name, attr), "%s.%s keeps the item `%s` in self.%s after handing it out: items cache "
+                           "the nodes matched from them and every block node names its reader as a reconstruction argument, so "
+                           "copy.deepcopy(tree) reaches the root again through reader -> item -> node while copying those arguments "
+                           "and builds it twice (the copy's children then have a hidden twin as parent)"
+                           % (c["name"], meth.name, A.text(val)[:30], attr), m.loc(f, n))
+    return r
+
+
 def run(m, tier):
-    results = [r1_newargs_vs_new(m), r2_attrs_set(m), r3_no_custom_protocol(m)]
+    results = [r1_newargs_vs_new(m), r2_attrs_set(m), r3_no_custom_protocol(m), r4_reachable_state(m), r5_no_back_reference(m)]
     expl = ("Decides that the copy protocol is well-typed over the whole node class hierarchy: for each of the ~500 node classes the "
             "tuple returned by its resolved __getnewargs__ binds to its resolved __new__, the _deepcopy flag is True and, under that "
             "flag, __new__ returns a fresh object without running a matcher or touching the stored text (abstract interpretation of "
             "each distinct __new__); every attribute __getnewargs__ reads is assigned at every object.__new__ construction site; no "
-            "class overrides the protocol otherwise. Does NOT decide equality of the copy's text/structure.")
+            "class overrides the protocol otherwise; no class reachable from a node (items, readers, format) stores an open file, lambda, nested function or generator. Does NOT decide equality of the copy's text/structure.")
     return results, expl
